@@ -393,7 +393,7 @@ def native_run(exe, h, tape, timeout=60, env_extra=None):
     open(tf, 'w').write('\n'.join(str(x) for x in tape) + '\n')
     env = dict(os.environ); env['ASAN_OPTIONS'] = 'detect_leaks=1:abort_on_error=0:exitcode=66'; env['UBSAN_OPTIONS'] = 'print_stacktrace=1:halt_on_error=1:exitcode=67'
     t0 = time.time()
-    p = subprocess.Popen([exe, h, tf], stdout=subprocess.PIPE, stderr=subprocess.PIPE, env=env, preexec_fn=os.setsid)
+    p = subprocess.Popen([exe, h, tf], stdout=subprocess.PIPE, stderr=subprocess.PIPE, env=env, start_new_session=True)   # not preexec_fn: that forces fork() of this (large) process, 20 runs/s
     try:
         out, err = p.communicate(timeout=timeout); rc = p.returncode
     except subprocess.TimeoutExpired:
